@@ -9,6 +9,7 @@ CONSTANTS
   KF_V12OmitsEmpty = FALSE
   KF_MarkedFlagUncovered = FALSE
   KF_CoinbaseRider = FALSE
-INVARIANTS TypeOK Sound HonestAccepted Conforms EveryFormHonest MutationRejected CoverageOK CoinbaseClean Injective
+  KF_PlayPooledIdUnchecked = FALSE
+INVARIANTS TypeOK Sound SubmitSound HonestAccepted Conforms EveryFormHonest DistinctMembers BlockSound MutationRejected CoverageOK CoinbaseClean Injective
 VIEW View
 CHECK_DEADLOCK FALSE
